@@ -237,3 +237,6 @@ mod test_translate_position {
         assert_eq!(position, (1, 2));
     }
 }
+
+#[cfg(kani)]
+include!(concat!(env!("TOML_VERIF_KANI"), "/toml_edit/error.rs"));
